@@ -587,9 +587,9 @@ fn step_vop(ob: &mut ObservableVector<Tracked>, vop: &VOp, mon: &mut Mon) -> Res
                             format!("commit changed the contents {before_v:?} -> {after:?} but published nothing"),
                         );
                     }
-                    if certain > 0 && !any_clear {
-                        return div("C07", format!("commit with {certain} recorded change(s) published nothing"));
-                    }
+                    // (pre == post was just checked: publishing nothing is then indistinguishable for any
+                    // subscriber, so the number of recorded operations is not held against it)
+                    let _ = certain;
                 } else {
                     if certain == 0 && !any_clear {
                         return div("C07", format!("commit without recorded changes published {}", show_diffs(&new[0])));
@@ -676,7 +676,10 @@ fn step_vop(ob: &mut ObservableVector<Tracked>, vop: &VOp, mon: &mut Mon) -> Res
                     format!("{}: before {before_v:?} + diffs {:?} = {:?}, contents {after:?}", vop.show(), new.iter().map(|m| show_diffs(m)).collect::<Vec<_>>(), vals(&r)),
                 );
             }
-            if new.len() != want_msgs {
+            // an empty append changes nothing and is not among the documented no-ops: both "one
+            // (harmless) diff" and "no diff" are accepted for it
+            let empty_append = matches!(vop, VOp::Append(v) if v.is_empty());
+            if new.len() != want_msgs && !(empty_append && new.is_empty()) {
                 return div(
                     "C05",
                     format!("{} on {before_v:?} published {} message(s), expected {want_msgs}", vop.show(), new.len()),
